@@ -10,7 +10,7 @@ open Gama.Gen.GkfAttrs Gama.Gen.GkfDoc
 
 variable {K : Type}
 
-structure Codec.Printer (C : Codec K) (q : K → K) : Prop where
+structure Codec.Printer (C : Codec K) (q qd : K → K) : Prop where
   rd_fmt : ∀ x, C.rd (C.fmt x) = some (q x)         -- defined for every x
   fmt_q : ∀ x, C.fmt (q x) = C.fmt x                -- printing is a projection
   isZero_iff : ∀ x, C.isZero x = true ↔ x = C.zero
@@ -23,14 +23,29 @@ structure Codec.Printer (C : Codec K) (q : K → K) : Prop where
   latOut_latIn : ∀ x, C.latOut (C.latIn x) = x
   rdDeg_fmt : ∀ x, C.rdDeg (C.fmt x) = none
   fmt_ne : ∀ x, C.fmt x ≠ ""
+  -- the sexagesimal text (gon2deg(m, 0, 4) / deg2gon) is a second printer, with its own quantisation `qd`
+  rdDeg_fmtDeg : ∀ x, C.rdDeg (C.fmtDeg x) = some (qd x)
+  fmtDeg_qd : ∀ x, C.fmtDeg (qd x) = C.fmtDeg x
+  -- 0.324 and 1.0/0.324
+  fromSec_toSec : ∀ x, C.fromSec (C.toSec x) = x
+  toSec_fromSec : ∀ x, C.toSec (C.fromSec x) = x
 
-theorem Codec.Printer.q_idem {C : Codec K} {q : K → K} (P : C.Printer q) (x : K) : q (q x) = q x := by
+theorem Codec.Printer.q_idem {C : Codec K} {q qd : K → K} (P : C.Printer q qd) (x : K) : q (q x) = q x := by
   have h1 := P.rd_fmt (q x)
   rw [P.fmt_q, P.rd_fmt] at h1
   exact (Option.some.inj h1).symm
 
 /-- the representable numbers of a printer satisfy the exact law -/
-theorem Codec.Printer.lawfulOn {C : Codec K} {q : K → K} (P : C.Printer q) : C.LawfulOn (fun x => q x = x) :=
+theorem Codec.Printer.qd_idem {C : Codec K} {q qd : K → K} (P : C.Printer q qd) (x : K) : qd (qd x) = qd x := by
+  have h1 := P.rdDeg_fmtDeg (qd x)
+  rw [P.fmtDeg_qd, P.rdDeg_fmtDeg] at h1
+  exact (Option.some.inj h1).symm
+
+theorem Codec.Printer.degLawfulOn {C : Codec K} {q qd : K → K} (P : C.Printer q qd) : C.DegLawfulOn (fun x => qd x = x) :=
+  { rdDeg_fmtDeg := fun x hx => by rw [P.rdDeg_fmtDeg, hx]
+    fromSec_toSec := P.fromSec_toSec }
+
+theorem Codec.Printer.lawfulOn {C : Codec K} {q qd : K → K} (P : C.Printer q qd) : C.LawfulOn (fun x => q x = x) :=
   { num := ⟨fun x hx => by rw [P.rd_fmt, hx], P.isZero_iff⟩
     neg_neg := P.neg_neg
     R_neg := fun x hx => by simp only [P.q_neg, hx]
@@ -57,27 +72,38 @@ def quantParams (C : Codec K) (q : K → K) (p : Params K) : Params K :=
   { p with sigmaApr := q p.sigmaApr, confPr := q p.confPr, tolAbs := q p.tolAbs,
            latitude := p.latitude.map (fun l => C.latIn (q (C.latOut l))) }
 
-def quantCluster (C : Codec K) (q : K → K) (s0 : K) : Cluster K → Cluster K
-  | .obs sp cov => .obs ⟨sp.station, sp.obs.map (quantObs q)⟩ (cov.map (quantCov q))
+/-- an angular observation of a file in degrees: the value through the sexagesimal text, the standard deviation
+    through its value in seconds -/
+def quantObsU (C : Codec K) (q qd : K → K) (gons : Bool) (o : Obs K) : Obs K :=
+  if gons || !o.kind.angular then quantObs q o
+  else { o with val := qd o.val, stdev := C.fromSec (q (C.toSec o.stdev)), fromDh := q o.fromDh, toDh := q o.toDh, fsDh := q o.fsDh }
+
+/-- the covariance matrix of an `<obs>` cluster: quantised in the unit of the file -/
+def quantCovU (C : Codec K) (q : K → K) (gons : Bool) (ang : Nat → Bool) (c : Cov K) : Cov K :=
+  if gons then quantCov q c else scaleCov C.fromSec ang (quantCov q (scaleCov C.toSec ang c))
+
+def quantCluster (C : Codec K) (q qd : K → K) (gons : Bool) (s0 : K) : Cluster K → Cluster K
+  | .obs sp cov => .obs ⟨sp.station, sp.obs.map (quantObsU C q qd gons)⟩
+                     (cov.map (quantCovU C q gons (flagOf (sp.obs.map (fun o => o.kind.angular)))))
   | .hdiffs dhs cov => .hdiffs (dhs.map (quantDh C q s0)) (cov.map (quantCov q))
   | .coords ext pts cov => .coords ext (pts.map (quantCPoint q)) (quantCov q cov)
   | .vectors vecs cov => .vectors (vecs.map (quantVec q)) (quantCov q cov)
 
-def quantNet (C : Codec K) (q : K → K) (n : Net K) : Net K :=
+def quantNet (C : Codec K) (q qd : K → K) (n : Net K) : Net K :=
   { n with head := { n.head with epoch := n.head.epoch.map q }
            par := quantParams C q n.par
            points := n.points.map (quantPoint q)
-           clusters := n.clusters.map (quantCluster C q n.par.sigmaApr) }
+           clusters := n.clusters.map (quantCluster C q qd n.par.gons n.par.sigmaApr) }
 
-variable {C : Codec K} {q : K → K}
+variable {C : Codec K} {q qd : K → K}
 
-theorem fmt_sgn_q (P : C.Printer q) (b : Bool) (x : K) : C.fmt (sgn C b (q x)) = C.fmt (sgn C b x) := by
+theorem fmt_sgn_q (P : C.Printer q qd) (b : Bool) (x : K) : C.fmt (sgn C b (q x)) = C.fmt (sgn C b x) := by
   cases b
   · simp [sgn, P.fmt_q]
   · simp only [sgn, if_true]
     rw [← P.q_neg, P.fmt_q]
 
-theorem flipWith_map (P : C.Printer q) (bs : List Bool) (xs : List K) :
+theorem flipWith_map (P : C.Printer q qd) (bs : List Bool) (xs : List K) :
     flipWith C.neg bs (xs.map q) = (flipWith C.neg bs xs).map q := by
   induction bs generalizing xs with
   | nil => cases xs <;> rfl
@@ -86,14 +112,15 @@ theorem flipWith_map (P : C.Printer q) (bs : List Bool) (xs : List K) :
     | nil => rfl
     | cons x xs => cases b <;> simp [flipWith, ih, P.q_neg]
 
-theorem exportCov_quant (P : C.Printer q) (c : Cov K) : exportCov C.toNumFmt (quantCov q c) = exportCov C.toNumFmt c := by
+theorem exportCov_quant (P : C.Printer q qd) (c : Cov K) : exportCov C.toNumFmt (quantCov q c) = exportCov C.toNumFmt c := by
   simp [exportCov, quantCov, List.map_map, Function.comp_def, P.fmt_q]
 
-theorem exportCovCall_quant (P : C.Printer q) (call : Bool × Bool) (ys : Bool) (mir ang : Nat → Bool) (c : Cov K) :
-    exportCovCall C call ys false mir ang (quantCov q c) = exportCovCall C call ys false mir ang c := by
+theorem exportCovCall_quant (P : C.Printer q qd) (call : Bool × Bool) (ys degrees : Bool) (mir : Nat → Bool) (c : Cov K) :
+    exportCovCall C call ys degrees mir (fun _ => false) (quantCov q c) = exportCovCall C call ys degrees mir (fun _ => false) c := by
   have hm : mirrorCov C.neg mir (quantCov q c) = quantCov q (mirrorCov C.neg mir c) := by
     simp [mirrorCov, quantCov, flipWith_map P]
   unfold exportCovCall
+  simp only [scaleCov_false C.toSec (fun _ => false) (fun _ => rfl), ite_self]
   by_cases h1 : (covSkipsDiagonal && !call.1 && c.band == 0) = true
   · have : (covSkipsDiagonal && !call.1 && (quantCov q c).band == 0) = true := h1
     simp [h1, this]
@@ -103,26 +130,58 @@ theorem exportCovCall_quant (P : C.Printer q) (call : Bool × Bool) (ys : Bool) 
     · simp only [h2, if_true, hm, exportCov_quant P]
     · simp [h2, exportCov_quant P]
 
-theorem exportObsU_quant (P : C.Printer q) (cf : String) (o : Obs K) :
-    exportObsU C true cf (quantObs q o) = exportObsU C true cf o := by
-  simp only [exportObsU, Bool.true_or, if_true, exportObs, quantObs, dhAttr, P.fmt_q, P.isZero_q]
-  rfl
+theorem quantCovU_band (gons : Bool) (ang : Nat → Bool) (c : Cov K) : (quantCovU C q gons ang c).band = c.band := by
+  cases gons <;> rfl
 
-theorem exportDh_quant (P : C.Printer q) (s0 : K) (h : HDiff K) :
+theorem covOut_quantCovU (P : C.Printer q qd) (gons : Bool) (ang : Nat → Bool) (c : Cov K) :
+    covOut C gons ang (quantCovU C q gons ang c) = quantCov q (covOut C gons ang c) := by
+  cases gons
+  · simp only [covOut, quantCovU, Bool.false_eq_true, if_false]
+    exact scaleCov_inv _ _ P.toSec_fromSec _ _
+  · rfl
+
+/-- the `<cov-mat>` of an `<obs>` cluster, gons or degrees -/
+theorem exportCovCall_obs_quant (P : C.Printer q qd) (ys gons : Bool) (ang : Nat → Bool) (c : Cov K) :
+    exportCovCall C covCall_StandPoint ys (!gons) (fun _ => false) ang (quantCovU C q gons ang c) =
+      exportCovCall C covCall_StandPoint ys (!gons) (fun _ => false) ang c := by
+  by_cases hb : c.band = 0
+  · have h1 : (c.band == 0) = true := by simpa using hb
+    have h2 : ((quantCovU C q gons ang c).band == 0) = true := by rw [quantCovU_band]; exact h1
+    simp [exportCovCall, covCall_StandPoint, covSkipsDiagonal, h1, h2]
+  · have hb' : (quantCovU C q gons ang c).band ≠ 0 := by rw [quantCovU_band]; exact hb
+    rw [exportCovCall_obs C ys gons ang _ hb', exportCovCall_obs C ys gons ang c hb, covOut_quantCovU P, exportCov_quant P]
+
+theorem exportObsU_quant (P : C.Printer q qd) (gons : Bool) (cf : String) (o : Obs K) :
+    exportObsU C gons cf (quantObsU C q qd gons o) = exportObsU C gons cf o := by
+  by_cases hg : (gons || !o.kind.angular) = true
+  · have h1 : quantObsU C q qd gons o = quantObs q o := by simp [quantObsU, hg]
+    have h2 : (gons || !(quantObs q o).kind.angular) = true := hg
+    rw [h1]
+    simp only [exportObsU, hg, h2, if_true, exportObs, exportObsV, quantObs, dhAttr, P.fmt_q, P.isZero_q]
+    rfl
+  · have hg' : (gons || !o.kind.angular) = false := by simpa using hg
+    have h1 : quantObsU C q qd gons o =
+        { o with val := qd o.val, stdev := C.fromSec (q (C.toSec o.stdev)), fromDh := q o.fromDh, toDh := q o.toDh, fsDh := q o.fsDh } := by
+      simp [quantObsU, hg']
+    rw [h1]
+    simp only [exportObsU, hg', Bool.false_eq_true, if_false, exportObsV, dhAttr, P.fmt_q, P.isZero_q, P.fmtDeg_qd,
+      P.toSec_fromSec, visStdevScaled, if_true]
+
+theorem exportDh_quant (P : C.Printer q qd) (s0 : K) (h : HDiff K) :
     exportDh C.toNumFmt true C.pos (quantDh C q s0 h) = exportDh C.toNumFmt true C.pos h := by
   cases hp : C.pos h.dist <;> simp [exportDh, quantDh, P.fmt_q, P.pos_q, hp]
 
-theorem exportPoint_quant (P : C.Printer q) (ys : Bool) (p : Point K) :
+theorem exportPoint_quant (P : C.Printer q qd) (ys : Bool) (p : Point K) :
     exportPoint C ys (quantPoint q p) = exportPoint C ys p := by
   obtain ⟨id, xy, z, s1, s2⟩ := p
   cases xy <;> cases z <;> simp [exportPoint, quantPoint, fixStr, adjStr, P.fmt_q, fmt_sgn_q P]
 
-theorem exportCPoint_quant (P : C.Printer q) (ys : Bool) (p : CPoint K) :
+theorem exportCPoint_quant (P : C.Printer q qd) (ys : Bool) (p : CPoint K) :
     exportCPoint C ys (quantCPoint q p) = exportCPoint C ys p := by
   obtain ⟨id, xy, z⟩ := p
   cases xy <;> cases z <;> simp [exportCPoint, quantCPoint, fmt_sgn_q P]
 
-theorem exportVec_quant (P : C.Printer q) (ys : Bool) (v : Vec K) : exportVec C ys (quantVec q v) = exportVec C ys v := by
+theorem exportVec_quant (P : C.Printer q qd) (ys : Bool) (v : Vec K) : exportVec C ys (quantVec q v) = exportVec C ys v := by
   simp only [exportVec, quantVec, fmt_sgn_q P]
   rfl
 
@@ -141,13 +200,27 @@ theorem map_map_eq {α β : Type} (f : α → β) (g : α → α) (h : ∀ a, f 
   intro a _
   exact h a
 
-theorem exportCluster_quant (P : C.Printer q) (ys : Bool) (s0 : K) (c : Cluster K) :
-    exportCluster' C ys true (quantCluster C q s0 c) = exportCluster' C ys true c := by
+theorem map_angular_quant (gons : Bool) (obs : List (Obs K)) :
+    (obs.map (quantObsU C q qd gons)).map (fun o => o.kind.angular) = obs.map (fun o => o.kind.angular) := by
+  rw [List.map_map]
+  apply List.map_congr_left
+  intro o _
+  simp only [Function.comp, quantObsU]
+  split <;> rfl
+
+theorem exportCluster_quant (P : C.Printer q qd) (ys gons : Bool) (s0 : K) (c : Cluster K) :
+    exportCluster' C ys gons (quantCluster C q qd gons s0 c) = exportCluster' C ys gons c := by
   cases c with
   | obs sp cov =>
-    cases cov <;>
-    simp [exportCluster', quantCluster, map_map_eq _ _ (exportObsU_quant P sp.station), exportCovCall_quant P, List.map_map,
-      Function.comp_def, quantObs]
+    have hfl : (sp.obs.map (quantObsU C q qd gons)).map (fun o => o.kind.angular) = sp.obs.map (fun o => o.kind.angular) :=
+      map_angular_quant gons sp.obs
+    cases cov with
+    | none =>
+      simp only [exportCluster', quantCluster, map_map_eq _ _ (exportObsU_quant P gons sp.station), Option.map_none,
+        Option.bind_none]
+    | some cv =>
+      simp only [exportCluster', quantCluster, map_map_eq _ _ (exportObsU_quant P gons sp.station), Option.map_some,
+        Option.bind_some, hfl, exportCovCall_obs_quant P]
   | hdiffs dhs cov =>
     cases cov <;>
     simp [exportCluster', quantCluster, map_map_eq _ _ (exportDh_quant P s0), exportCovCall_quant P]
@@ -156,7 +229,7 @@ theorem exportCluster_quant (P : C.Printer q) (ys : Bool) (s0 : K) (c : Cluster 
   | vectors vecs cov =>
     simp [exportCluster', quantCluster, map_map_eq _ _ (exportVec_quant P ys), exportCovCall_quant P, vecFlags_map]
 
-theorem exportParams_quant (P : C.Printer q) (p : Params K) : exportParams C (quantParams C q p) = exportParams C p := by
+theorem exportParams_quant (P : C.Printer q qd) (p : Params K) : exportParams C (quantParams C q p) = exportParams C p := by
   obtain ⟨sa, cp, ta, ap, g, alg, lat, ell, cb⟩ := p
   cases lat <;> simp only [exportParams, quantParams, Option.map, P.fmt_q, P.latOut_latIn, latitudeInGons, if_true] <;> rfl
 
@@ -169,9 +242,9 @@ theorem filter_active_quant (ps : List (Point K)) :
     simp only [List.map_cons, List.filter_cons, this, ih]
     cases p.active <;> simp
 
-/-- the document does not see the difference between a number and its printed-and-read value -/
-theorem exportNet_quant (P : C.Printer q) (n : Net K) (hgons : n.par.gons = true) :
-    exportNet C (quantNet C q n) = exportNet C n := by
+/-- the document does not see the difference between a number and its printed-and-read value (gons and degrees) -/
+theorem exportNet_quant (P : C.Printer q qd) (n : Net K) :
+    exportNet C (quantNet C q qd n) = exportNet C n := by
   have hh : exportHead C { n.head with epoch := n.head.epoch.map q } = exportHead C n.head := by
     obtain ⟨ax, la, ep⟩ := n.head
     cases ep <;> simp [exportHead, P.fmt_q]
@@ -181,16 +254,16 @@ theorem exportNet_quant (P : C.Printer q) (n : Net K) (hgons : n.par.gons = true
       (n.points.filter Point.active).map (fun p => DItem.point (exportPoint C n.head.ys p)) :=
     map_map_eq (fun p => DItem.point (exportPoint C n.head.ys p)) (quantPoint q)
       (fun p => congrArg DItem.point (exportPoint_quant P n.head.ys p)) _
-  have hc : (n.clusters.map (quantCluster C q n.par.sigmaApr)).map (exportCluster' C n.head.ys true) =
-      n.clusters.map (exportCluster' C n.head.ys true) :=
-    map_map_eq _ _ (exportCluster_quant P n.head.ys n.par.sigmaApr) _
-  simp only [exportNet, quantNet, hh, hys, hg, exportParams_quant P, filter_active_quant, hgons, hp, hc]
+  have hc : (n.clusters.map (quantCluster C q qd n.par.gons n.par.sigmaApr)).map (exportCluster' C n.head.ys n.par.gons) =
+      n.clusters.map (exportCluster' C n.head.ys n.par.gons) :=
+    map_map_eq _ _ (exportCluster_quant P n.head.ys n.par.gons n.par.sigmaApr) _
+  simp only [exportNet, quantNet, hh, hys, hg, exportParams_quant P, filter_active_quant, hp, hc]
 
 /-- reading the export gives the quantised network (without its unused points) -/
-theorem parse_export_net_printer (P : C.Printer q) (impl : Kind → K) (par0 : Params K) (n : Net K)
-    (hw : (quantNet C q n).WF C (fun x => q x = x)) :
-    parseNet C impl par0 (exportNet C n) = .ok (canon (quantNet C q n)) := by
-  rw [← exportNet_quant P n hw.gons]
-  exact parse_export_net C P.lawfulOn impl par0 _ hw
+theorem parse_export_net_printer (P : C.Printer q qd) (impl : Kind → K) (par0 : Params K) (n : Net K)
+    (hw : (quantNet C q qd n).WF C (fun x => q x = x) (fun x => qd x = x)) :
+    parseNet C impl par0 (exportNet C n) = .ok (canon (quantNet C q qd n)) := by
+  rw [← exportNet_quant P n]
+  exact parse_export_net C P.lawfulOn P.degLawfulOn impl par0 _ hw
 
 end Gama.Export
